@@ -197,6 +197,26 @@ def _adj_check(case, obj=None):
     if len(req) == 2 and not np.array_equal(infos[0]['mask'], infos[1]['mask']):
         cnt['params_with_different_masks'] = 1
 
+    # the same Sample object adjusted once more, with another selection of summaries (the first one only, or the same
+    # ones when there is a single summary): still the formula applied to the accepted draws - an adjustment that
+    # writes into the sample it was given, or returns arrays aliasing it, shows here
+    sn2 = sn[:1] if len(sn) > 1 else sn
+    try:
+        res_b = _call(api, sample, model, [SN[j] for j in sn2], pn_names)
+    except Exception:
+        if not any(ref.finite_rows(S[:, sn2], T[:, j]).sum() == 0 for j in req):
+            raise
+        res_b = None
+    if res_b is not None:
+        sig, det, _, _, _ = _judge(S[:, sn2], obs[sn2], T, req, dict(res_b.outputs), tag)
+        if sig:
+            return bad(sig + ':second-adjustment-of-the-same-sample', dict(det or {}, summaries_first=sn_names,
+                                                                         summaries_second=[SN[j] for j in sn2]), **cnt)
+        sig, det, _, _, _ = _judge(S[:, sn], obs[sn], T, req, out, tag)
+        if sig:
+            return bad('C17:adjust:earlier-result-changed-by-a-later-adjustment', det, **cnt)
+        cnt['second_adjustments_of_the_same_sample'] = 1
+
     # invariance under invertible affine re-expressions of the summaries
     nmaps = 0
     for A, c in case.get('maps') or []:
@@ -251,7 +271,8 @@ def run_refit(case):
                        {'step': i, 'as_fresh_object': 'passes', 'on_reused_object': r['viol']})
         # adjust() twice on the same fit
         if not r.get('trivial'):
-            o1, o2 = la.adjust().outputs, la.adjust().outputs
+            o1 = {k: np.array(v, copy=True) for k, v in la.adjust().outputs.items()}
+            o2 = {k: np.array(v, copy=True) for k, v in la.adjust().outputs.items()}
             if any(not np.array_equal(o1[k], o2[k]) for k in o1):
                 return bad('C17:adjust:adjust-not-repeatable', {'step': i})
     return ok(outcome=_h48([s['S'] for s in case['seq']]), refit_steps=n)
